@@ -17,7 +17,7 @@ func init() {
 		return corrKernel(seed, tier, replay, "C02", fsGenOpts{files: true, kernel: true}, 12)
 	}
 	parts["kernel-enum"] = func(seed uint64, tier string, replay []string) *lib.Result {
-		return corrKernel(seed, tier, replay, "C14", fsGenOpts{enum: true, symlinks: true, kernel: true}, 14)
+		return corrKernel(seed, tier, replay, "C14", fsGenOpts{enum: true, symlinks: true, kernel: true, users: true}, 14)
 	}
 	parts["kernel-perm"] = func(seed uint64, tier string, replay []string) *lib.Result {
 		return corrKernel(seed, tier, replay, "C03", fsGenOpts{users: true, symlinks: true, kernel: true}, 15)
@@ -61,22 +61,44 @@ func normRes(s string) string {
 
 // runBoth executes a history on a fresh implementation and a fresh kernel oracle in lockstep with a snapshot
 // after every call; it stops at the first disagreement. Returns lines, impl results, oracle results.
-func runBoth(h lib.History) (lib.History, []string, []string) {
-	m := newFsImpl()
+func runBoth(h lib.History) (lib.History, []string, []string) { return runBothWith(kMemfs, h) }
+
+// kImpl names the emulated side of a comparison with the kernel: its constructor, the snapshot line issued after
+// every call, how it is called in messages and the prefix of the divergence classes.
+type kImpl struct {
+	mk    func() *fsImpl
+	snap  string
+	name  string
+	class string
+}
+
+var kMemfs = kImpl{mk: newFsImpl, snap: "fs 0 snap", name: "MemFS", class: "kernel."}
+
+// toOracle rewrites a protocol line of another domain for the kernel oracle, which serves the domain `fs`.
+func toOracle(l string) string {
+	if i := strings.Index(l, " "); i > 0 && l[:i] != "fs" {
+		return "fs" + l[i:]
+	}
+	return l
+}
+
+// runBothWith: runBoth for the implementation k.
+func runBothWith(k kImpl, h lib.History) (lib.History, []string, []string) {
+	m := k.mk()
 	o := newFsOracle()
 	defer o.cleanup()
 	var lines lib.History
 	var ri, ro []string
 	for _, l := range h {
 		f := strings.Fields(l)
-		if len(f) >= 3 && (f[2] == "dump" || f[2] == "snap") {
+		if len(f) >= 3 && (f[2] == "dump" || f[2] == "snap" || f[2] == "snapo") {
 			continue
 		}
 		if len(f) >= 6 && (f[2] == "mkdirtemp" || f[2] == "createtemp") {
 			f[5] = "?"
 			l = strings.Join(f, " ")
 		}
-		a, b := normRes(m.call(l)), normRes(o.call(l))
+		a, b := normRes(m.call(l)), normRes(o.call(toOracle(l)))
 		if len(f) >= 3 && (f[2] == "mkdirtemp") && strings.HasPrefix(a, "ok b") && strings.HasPrefix(b, "ok b") {
 			a, b = "ok b ~", "ok b ~" // random names differ by construction
 		}
@@ -91,8 +113,8 @@ func runBoth(h lib.History) (lib.History, []string, []string) {
 			if (f[2] == "mkdirtemp" || f[2] == "createtemp") && strings.HasPrefix(a, "ok") {
 				break // random names differ by construction: the history ends here
 			}
-			sa, sb := normRes(m.call("fs 0 snap")), normRes(o.call("fs 0 snap"))
-			lines, ri, ro = append(lines, "fs 0 snap"), append(ri, sa), append(ro, sb)
+			sa, sb := normRes(m.call(k.snap)), normRes(o.call(toOracle(k.snap)))
+			lines, ri, ro = append(lines, k.snap), append(ri, sa), append(ro, sb)
 			if sa != sb {
 				break
 			}
@@ -112,8 +134,13 @@ func agree(line, a, b string) bool {
 }
 
 func corrKernel(seed uint64, tier string, replay []string, prop string, opts fsGenOpts, salt uint64) *lib.Result {
+	return corrKernelWith(kMemfs, seed, tier, replay, prop, opts, salt)
+}
+
+// corrKernelWith: corrKernel for the implementation k.
+func corrKernelWith(k kImpl, seed uint64, tier string, replay []string, prop string, opts fsGenOpts, salt uint64) *lib.Result {
 	res := &lib.Result{Property: prop,
-		Rule: "the same template-driven histories issued to MemFS and, through OsFS, to the Linux kernel on a fresh tmpfs directory (paths re-rooted); after every call the outcome (ok / errno, returned attributes) and the whole tree (Lstat, ReadDir, ReadFile, Readlink of every entry) are compared; a history ends at its first disagreement; a case is one call; distinct non-trivial = distinct (call kind, outcome, bucket)"}
+		Rule: "the same template-driven histories issued to " + k.name + " and, through OsFS, to the Linux kernel on a fresh tmpfs directory (paths re-rooted); after every call the outcome (ok / errno, returned attributes) and the whole tree (Lstat, ReadDir, ReadFile, Readlink of every entry) are compared; a history ends at its first disagreement; a case is one call; distinct non-trivial = distinct (call kind, outcome, bucket)"}
 	st := lib.NewStats()
 	nh, nl := 120, 40
 	if tier == "thorough" {
@@ -125,7 +152,7 @@ func corrKernel(seed uint64, tier string, replay []string, prop string, opts fsG
 	}
 	var found []dis
 	if replay != nil {
-		l, a, b := runBoth(replay)
+		l, a, b := runBothWith(k, replay)
 		if lib.FirstDiff(a, b) >= 0 {
 			found = append(found, dis{l, a, b})
 		}
@@ -133,16 +160,16 @@ func corrKernel(seed uint64, tier string, replay []string, prop string, opts fsG
 		st.Count("replay", "replay2")
 	} else {
 		r := lib.NewRng(seed*104729 + salt)
-		for k := 0; k < nh; k++ {
-			m := newFsImpl()
+		for hi := 0; hi < nh; hi++ {
+			m := k.mk()
 			o := newFsOracle()
 			g := &fsGen{r: r.Split(), impl: m, opts: opts, nviews: 1}
-			h := lib.History{"fs new"}
+			h := lib.History{m.prefix() + " new"}
 			var ri, ro []string
 			ri, ro = append(ri, "ok"), append(ro, "ok")
 			for i := 0; i < nl; i++ {
 				l := g.next()
-				a, b := normRes(m.call(l)), normRes(o.call(l))
+				a, b := normRes(m.call(l)), normRes(o.call(toOracle(l)))
 				f := strings.Fields(l)
 				if f[2] == "mkdirtemp" && strings.HasPrefix(a, "ok b") && strings.HasPrefix(b, "ok b") {
 					// both succeeded with different random names: the trees now differ by name only; end the history
@@ -165,16 +192,16 @@ func corrKernel(seed uint64, tier string, replay []string, prop string, opts fsG
 				if a != b || m.dead {
 					break
 				}
-				sa, sb := normRes(m.call("fs 0 snap")), normRes(o.call("fs 0 snap"))
-				h, ri, ro = append(h, "fs 0 snap"), append(ri, sa), append(ro, sb)
+				sa, sb := normRes(m.call(k.snap)), normRes(o.call(toOracle(k.snap)))
+				h, ri, ro = append(h, k.snap), append(ri, sa), append(ro, sb)
 				if sa != sb {
 					break
 				}
 			}
 			o.cleanup()
-			if k < 2 {
+			if hi < 2 {
 				n := min(len(h), 7)
-				st.Sample(map[string]any{"history": h[:n], "memfs": ri[:n], "kernel": ro[:n]})
+				st.Sample(map[string]any{"history": h[:n], strings.ToLower(k.name): ri[:n], "kernel": ro[:n]})
 			}
 			if lib.FirstDiff(ri, ro) >= 0 {
 				found = append(found, dis{h, ri, ro})
@@ -184,20 +211,20 @@ func corrKernel(seed uint64, tier string, replay []string, prop string, opts fsG
 	seen := map[string]bool{}
 	for _, d := range found {
 		small := lib.Shrink(d.h, 1, func(c lib.History) bool {
-			_, a, b := runBoth(c)
+			_, a, b := runBothWith(k, c)
 			return lib.FirstDiff(a, b) >= 0
 		})
-		l, a, b := runBoth(small)
+		l, a, b := runBothWith(k, small)
 		di := lib.FirstDiff(a, b)
 		if di < 0 {
 			continue
 		}
-		cls := kernelClass(l, a, b, di)
+		cls := kernelClassWith(k, l, a, b, di)
 		if seen[cls] {
 			continue
 		}
 		seen[cls] = true
-		what := fmt.Sprintf("MemFS and the Linux kernel disagree at %q: MemFS %q, kernel %q", l[di], trunc(a[di]), trunc(b[di]))
+		what := fmt.Sprintf("%s and the Linux kernel disagree at %q: %s %q, kernel %q", k.name, l[di], k.name, trunc(a[di]), trunc(b[di]))
 		res.Mismatches = append(res.Mismatches, lib.Mismatch{Kind: "known", Class: cls, What: what, History: l, Impl: a, Expected: b, Index: di})
 	}
 	st.Fill(res)
@@ -254,15 +281,23 @@ func situation(m *fsImpl, p string) string {
 // kernelClass names the divergence class of a disagreement (matched against the ledger by bin/check): the call,
 // the situation of its path operands in the state before the call, and the two outcomes.
 func kernelClass(l lib.History, a, b []string, d int) string {
+	return kernelClassWith(kMemfs, l, a, b, d)
+}
+
+// kernelClassWith: kernelClass for the implementation k (its class prefix replaces "kernel.").
+func kernelClassWith(k kImpl, l lib.History, a, b []string, d int) string {
 	f := strings.Fields(l[d])
 	op := f[2]
 	sit := ""
+	if op == "snapo" {
+		op = "snap"
+	}
 	if op != "snap" && op != "file" {
 		// replay the prefix on a fresh implementation to look at the operands
-		m := newFsImpl()
+		m := k.mk()
 		for _, pl := range l[:d] {
 			pf := strings.Fields(pl)
-			if len(pf) >= 3 && pf[2] != "snap" {
+			if len(pf) >= 3 && pf[2] != "snap" && pf[2] != "snapo" {
 				m.call(pl)
 			}
 		}
@@ -301,7 +336,7 @@ func kernelClass(l lib.History, a, b []string, d int) string {
 				}
 			}
 		}
-		return "kernel.tree-after-" + pop
+		return k.class + "tree-after-" + pop
 	}
 	if op == "file" && len(f) > 4 {
 		op = "file." + f[4]
@@ -339,7 +374,7 @@ func kernelClass(l lib.History, a, b []string, d int) string {
 			}
 		}
 	}
-	return "kernel." + op + sit + "." + lib.OutcomeClass(a[d]) + "-vs-" + lib.OutcomeClass(b[d])
+	return k.class + op + sit + "." + lib.OutcomeClass(a[d]) + "-vs-" + lib.OutcomeClass(b[d])
 }
 
 func indexOf(l lib.History, x string) int {
